@@ -39,7 +39,7 @@ DEFECT = {1: "A1/A2 (panic)", 2: "A1", 3: "A1", 5: "A2", 7: "A1"}
 
 def sizes(tier):
     if tier == "quick":
-        return [dict(n=300, bursts=120, ticks=3, stale=10, maxlen=12, base=0)]
+        return [dict(n=300, bursts=120, ticks=3, stale=12, maxlen=12, base=0)]
     # thorough: more of the same, plus a batch of long histories (up to 24 calls before quiescing)
     return [dict(n=10000, bursts=3000, ticks=30, stale=300, maxlen=12, base=0),
             dict(n=2000, bursts=0, ticks=0, stale=0, maxlen=24, base=100000)]
